@@ -65,6 +65,14 @@ CHECKS['C13'] = dict(
     design_ref='DESIGN.md 4/C13',
     note='Trusted: MIR = code; virtual file system, stdout and process::exit stubs; clap::ArgMatches stand-in. Outside: directory recursion, other stdout layout.',
     technique='symbolic execution of the binary crate\'s MIR with symbolic assertion outcomes; z3 decides outcomes per path; replay with the real ucg binary (bounded: files, assertions)')
+CHECKS['C14'] = dict(
+    category='model_checking',
+    text='The binary crate\'s real build_command ... Builtins::out/convert and the real flags/env/exec converters run from MIR on one source file (virtual file system); File::create (= create or truncate) '
+         'and writes are recording stubs, integer leaves symbolic. Per path: exactly one artifact named like the source with the converter\'s extension; its bytes equal piece for piece the string '
+         '`convert` yields in the same program; a second out fails; and no create event on any failing path (all or nothing), including failures guarded by a symbolic condition.',
+    design_ref='DESIGN.md 4/C14',
+    note='Trusted: MIR = code; io stubs; std builtins. Outside: bytes on disk / partial writes; json, yaml, toml, xml converters in this harness (C03/C12 cover their value mapping).',
+    technique='symbolic execution of the binary crate\'s MIR; obligations over the recorded create/write events decided per path; replay with the real binary over a pre-existing artifact')
 NOT_APPLICABLE = {
 }
 ALL = ['C%02d' % i for i in range(1, 21)]
